@@ -87,6 +87,16 @@ def slot_writes(B):
     return out
 
 
+def _is_increment(B, st):
+    """x = x + 1 (checked add lowered to a tuple field)"""
+    rv = st['rv']
+    if rv['k'] != 'use':
+        return False
+    o = B.origin(rv['op'])
+    txt = str(o)
+    return 'Add' in txt
+
+
 def run(ctx):
     P = ctx.P
     # ---------------- clause 1: duplicates never count ---------------------------------------
@@ -425,6 +435,56 @@ def run(ctx):
         else:
             ctx.bad('C09.8-content-blind', inst, 'a branch in %s tests the payload bytes: a fragment can be dropped or treated differently because of its content (e.g. an empty piece), so the sequence never completes' % inst,
                     ctx.where(QB, offending), key='DOM:%s:branches-on-payload' % q)
+
+    # the counter says how many slots are filled: whoever empties or replaces the slots must bring the counter along
+    ctx.rule('C09.1-slots-and-counter', 'outside the constructor, a method of FragmentedMessage that replaces or empties the slot vector (whole-field assignment, clear, truncate, fill, drain, take) '
+             'also assigns received_count in the same method: slots emptied under a counter that still counts them make the message "complete" with holes', floor=0)
+    n_sc = 0
+    for q in sorted(ctx.F.bodies):
+        if not (q.startswith(FM + '::') and ctx.F.bodies[q]['kind'] in ('Fn', 'AssocFn')):
+            continue
+        SB = P.B(q)
+        if any(st['rv']['k'] == 'agg' and st['rv'].get('adt') == FM and (st['pl']['l'] == 0 or 0 in SB.derived_locals([st['pl']['l']])) for bb, j, st in SB.stmts() if st['k'] == '='):
+            continue      # a constructor: builds the whole value
+        resets = [bb for bb, st in field_assigns(SB, FM, 'fragments')]
+        for bb, t in SB.calls():
+            nm = (callee_of(t)[0] or '').rsplit('::', 1)[-1]
+            if nm in ('clear', 'truncate', 'fill', 'drain', 'take') and t['args'] and 'fragments' in root_fields(SB, t['args'][0]) and 'pending_fragments' not in root_fields(SB, t['args'][0]):
+                resets.append(bb)
+        if not resets:
+            continue
+        n_sc += 1
+        cnt = field_assigns(SB, FM, 'received_count')
+        plain = [x for x in cnt if not (x[1]['rv']['k'] == 'use' and SB.origin(x[1]['rv']['op'])[0] in ('bin',) ) and not _is_increment(SB, x[1])]
+        if plain:
+            ctx.ok('C09.1-slots-and-counter', q.rsplit('::', 1)[1], 'slots replaced and received_count assigned anew', ctx.where(SB, resets[0]))
+        else:
+            ctx.bad('C09.1-slots-and-counter', q.rsplit('::', 1)[1], '%s replaces or empties the slot vector but leaves received_count as it was: fragments already counted are gone, the counter reaches the total with slots still empty '
+                    'and the message is handed out truncated' % q.rsplit('::', 1)[1], ctx.where(SB, resets[0]), key='PAIR:%s:slots-reset-counter-kept' % q)
+    if n_sc == 0:
+        ctx.ok('C09.1-slots-and-counter', 'none', 'no method replaces or empties the slot vector')
+
+    # activity is what keeps a sequence from expiring: whatever stores a fragment refreshes the timestamp
+    ctx.rule('C09.4-activity-refresh', 'in add_fragment every path that stores the fragment (into its slot or into the buffer for fragments that arrive before the header) also assigns last_update: '
+             'a sequence whose fragments keep arriving must not expire between them', floor=1)
+    AB = ctx.body(FM + '::add_fragment')
+    if AB is not None:
+        refresh = set(bb for bb, st in field_assigns(AB, FM, 'last_update'))
+        stores = [(bb, 'slot') for bb, idx in slot_writes(AB)]
+        for bb, t in AB.calls():
+            nm = (callee_of(t)[0] or '')
+            if nm.rsplit('::', 1)[-1] in ('insert', 'push', 'entry') and t['args'] and 'pending_fragments' in root_fields(AB, t['args'][0]):
+                stores.append((bb, 'buffer'))
+        ctx.anchor(len(stores) >= 2, FM + '::add_fragment: slot store and pre-header buffer store')
+        rets = set(AB.return_blocks())
+        for sb, kind in stores:
+            before = sb in AB.reachable(0, removed_blocks=refresh) and sb not in refresh
+            after = bool(AB.reachable(sb, removed_blocks=refresh - {sb}) & rets) and sb not in refresh
+            if before and after:
+                ctx.bad('C09.4-activity-refresh', kind, 'a fragment is stored in the %s on a path that never assigns last_update: the sequence keeps the timestamp of an earlier fragment and is swept as expired while its fragments are still arriving' % kind,
+                        ctx.where(AB, sb), key='PAIR:%s::add_fragment:%s-store-without-refresh' % (FM, kind))
+            else:
+                ctx.ok('C09.4-activity-refresh', kind, 'last_update is assigned on every path through the %s store' % kind, ctx.where(AB, sb))
 
 
 def _rv_places(rv):
